@@ -133,10 +133,13 @@ package smtp
 //@   ensures result1 != nil ==> s.delivery == nil && gOpen == old(gOpen)
 //@   assert-store delivery : $obj == s && ($old == nil || !gOpen[refOf($old)])
 //@ func (*Session).Mail
-//@   prop C03
+//@   prop C03 C14
 //@   modifies *
 //@   requires sInv(s) && opts != nil
 //@   ensures sInv(s)
+// C14: a submission endpoint (authentication always required) accepts no mail transaction from a session that has
+// not authenticated: the command is refused, no delivery is started and no permit taken.
+//@   ensures old(s.endp.authAlwaysRequired && s.connState.AuthUser == "") ==> result != nil && s.delivery == old(s.delivery) && gOpen == old(gOpen) && gPermit == old(gPermit)
 //@   ensures cmtSame(s.delivery)
 //@   ensures forall x ref :: old(gOpen)[x] && (s.delivery == nil || x != refOf(s.delivery)) && (old(s.delivery) == nil || x != refOf(old(s.delivery))) ==> gOpen[x]
 //@   ensures old(s.delivery) != nil && (s.delivery == nil || refOf(s.delivery) != refOf(old(s.delivery))) ==> !gOpen[refOf(old(s.delivery))]
@@ -221,3 +224,14 @@ package smtp
 //@   ensures result != nil ==> !gCommitted[refOf(old(s.delivery))]
 //@   ensures result != nil ==> (s.delivery == nil && closedOnly(old(s.delivery))) || (s.delivery == old(s.delivery) && gOpen == old(gOpen))
 //@   ensures cmtSame(old(s.delivery))
+
+// ---- C14: the authenticated user of a session is set only after a successful authentication ----
+//@ import auth "github.com/foxcpp/maddy/internal/auth"
+//@ axiom err-auth-required-set: gosmtp.ErrAuthRequired != nil
+//@ func (*Session).AuthPlain
+//@   prop C14
+//@   modifies *
+//@   requires s != nil && s.endp != nil && s.endp.pipeline != nil
+//@   assert-store AuthUser : $value == username && authOK(s.endp.saslAuth, username, password)
+//@   assert-store AuthPassword : $value == password && authOK(s.endp.saslAuth, username, password)
+//@   assert-call (*auth.SASLAuth).AuthPlain : $username == username && $password == password
